@@ -45,6 +45,26 @@ claim("C18", "CFG ordering/must-pass + resource pairing + frozen sets over go/ss
       "Not covered: that Stop returns, goroutine/descriptor counts, races of Stop with accepts and callbacks.",
       "DESIGN.md §4 C18")
 
+claim("C08", "error-result discipline + CFG must-pass + exhaustiveness over go/ssa",
+      "Decides on every path of the HTTP parser and its read paths: each call of a parse entry point tests the returned error and its failure edge closes / propagates / leaves the read loop into a closing defer; the carry-buffer append and the body reader's accounting/allocations are unreachable without the read-limit / body-size test on retained+incoming; every ParseInt/Atoi failure reaches a non-nil error return and stored lengths are dominated by the <0 and >MaxInt rejections; chunked only for exactly one Transfer-Encoding equal to chunked; all 35 parser states have a case; the ten CR/LF states accept only the expected byte or return an error; recover frames are deferred in Parse and the data handlers; no processor callback between an error's detecting comparison and its return. One genuine defect found and repaired.",
+      "Not covered: absence of panics as such (index safety is value-level; containment is decided), termination/progress of the loop index, allocator traffic.",
+      "DESIGN.md §4 C08")
+
+claim("C12", "interval facts on length classes + constant/bit-mask agreement + CFG path rules over go/ssa",
+      "Decides that WebSocket writer and reader agree on the wire format (payload equality is value-level): the encoder's length classes [0,125]/[126,65535]/rest with codes literal/126/127, extended-length fields [2:4]/[2:10] and header sizes 2/4/10 (+4 masked) and the decoder's equal RFC 6455; identical header bit masks reaching the right results; clients mask only their own copy with the key directly before the payload, the decoder unmasks exactly on the frame-complete edge and every later path consumes the frame or fails; WriteMessage's fragmentation shape (opcode/compression first only, FIN iff last, n=min(len,Max), rest advances by n, empty message one FIN frame); reassembly shape including a hand-off that does not depend on the buffer being non-nil. One genuine defect found and repaired.",
+      "Not covered: payload bytes, maskXOR arithmetic, deflate and tail trimming, all segmentations as executions.",
+      "DESIGN.md §4 C12")
+
+claim("C13", "finite decision tables read off branch conditions + CFG dominance + error-result discipline over go/ssa",
+      "Decides: validFrame composed with Parse's opcode switch against the RFC 6455 table over all 2048 (opcode, FIN, RSV1-3, expecting-continuation, compression) cells; the control-payload>125 and negative-64-bit-length rejections dominate acceptance; a failed nextFrame returns before anything is copied; UTF-8, close-code and close-reason checks dominate the text and close handlers, each failing edge writes a 1002 close and closes, type-0 messages are closed undelivered; validCloseCode's partition (boundary points in quick, all 65 536 codes in thorough); every WebSocket read path tests Parse's error and fails the connection; default ping/close handlers echo payload/code. One genuine defect found and repaired.",
+      "Not covered: 'accepts everything valid' beyond the frame table, UTF-8 across fragment boundaries as values, segmentation.",
+      "DESIGN.md §4 C13")
+
+claim("C15", "CFG must-pass / dominance + decision-table extraction over go/ssa",
+      "Decides the dominating tests behind the size limits: the too-large pre-check on buffered+declared length dominates frame acceptance; in readAll every extension by the read count is followed by a limit test before the buffer can be returned and growth happens only behind isMessageTooLarge(len+1)==false; WriteMessage refuses control payloads >125 for opcodes 8,9,10 before any writeFrame; the input-cache append is unreachable without the ReadLimit test; both size errors answer 1009 before the return; isMessageTooLarge(n) == limit>0 && n>limit. One genuine defect (decompression bomb bound) found and repaired.",
+      "Not covered: peak allocator bytes, actual inflated sizes, boundary arithmetic as values.",
+      "DESIGN.md §4 C15")
+
 PENDING = "check not built yet in this round (static rule tables are being added property by property; see DESIGN.md §4 for the planned obligations)"
 for pid in ["C%02d" % i for i in range(1, 21)]:
     if pid not in PROPS:
